@@ -635,6 +635,7 @@ class XsdElement(XsdComponent, ParticleMixin,
         context.elem = obj
 
         outer_counters = None
+        outer_identities = context.identities  # the context can be replaced by a copy below
         for identity in self.identities:
             if identity not in context.identities:
                 context.identities[identity] = identity.get_counter(obj)
@@ -880,7 +881,7 @@ class XsdElement(XsdComponent, ParticleMixin,
                 context.identities[identity].enabled = False
 
         if outer_counters is not None:
-            context.identities.update(outer_counters)
+            outer_identities.update(outer_counters)
 
         return result
 
